@@ -851,7 +851,8 @@ impl Streamertail {
     fn serialize_filter_expression(&self, expr: &ConditionExpression) -> String {
         match expr {
             ConditionExpression::Comparison(var, op, value) => {
-                format!("{}{}'{}'", var, op, value)
+                // `{:?}` escapes quotes inside the constant, so distinct filters get distinct keys
+                format!("{}{}{:?}", var, op, value)
             }
             ConditionExpression::ArithmeticComparison(left, op, right) => {
                 format!(
@@ -882,7 +883,7 @@ impl Streamertail {
                 format!("ARITH({})", serialize_arith_expr(expr))
             }
             ConditionExpression::FunctionCall(name, args) => {
-                format!("{}({})", name, args.join(", "))
+                format!("{}({:?})", name, args)
             }
         }
     }
